@@ -268,7 +268,7 @@ func submissions(r *rand.Rand, u *gen.Universe, l *gen.Log, top uint64) []sub {
 		out = append(out, sub{o.ID, clean, "cross_valid_under_other_id"})
 	}
 	// unknown IDs with the valid fixture
-	for _, id := range []string{l.Origin, l.ID[:len(l.ID)-1], l.ID + "0", strings.ToUpper(l.ID) + "X", "", fmt.Sprintf("%064x", r.Uint64()), refnote.LogID(l.Origin + "\n")} {
+	for _, id := range []string{l.Origin, l.ID[:len(l.ID)-1], l.ID + "0", strings.ToUpper(l.ID), strings.ToUpper(l.ID) + "X", " " + l.ID, l.ID + " ", "", fmt.Sprintf("%064x", r.Uint64()), refnote.LogID(l.Origin + "\n")} {
 		if _, ok := findID(u, id); !ok {
 			out = append(out, sub{id, clean, "unknown_id"})
 		}
